@@ -27,6 +27,24 @@ reg('C10', 'exploration',
     TB + 'Rule table transcribed from PeptideCutter documentation from memory; positions named by a rule must be occupied.',
     'DESIGN.md section 6 C10')
 
+CV = ('Each case is one real callVariant execution (in-process, working tree) on a generated reference + GVF set; the oracle is an '
+      'independent definitional model (harness/model/oracle.py) enumerating every haplotype. ')
+reg('C01', 'exploration', 'runtime monitor: reference-model oracle (MUST subset of output) + metamorphic pair (collapse knobs) over generated inputs',
+    CV + 'Completeness: the conservative MUST set must be contained in the FASTA; the same case under two collapse-knob settings must give the '
+    'same sequences. Held = on the executions of this run; known findings are attributed by mechanism predicates over the witness haplotypes.',
+    TB + 'The MAY-MUST gap (clauses the statement leaves open) is listed in the evidence rule text and is not decided.', 'DESIGN.md section 6 C01')
+reg('C02', 'exploration', 'runtime monitor: reference-model oracle (output subset of MAY) + metamorphic relations under binding limits and injected timeouts',
+    CV + 'Soundness: every output sequence must be a liberal digestion product of some haplotype; on dense clusters outputs under binding limits and '
+    'under injected TimeoutErrors (source-free failpoint, retry path of caller_reducer) must be subsets of the unlimited output, retry parameters '
+    'must not increase and exhaustion must raise without a FASTA.', TB, 'DESIGN.md section 6 C02')
+reg('C03', 'exploration', 'runtime monitor: witness oracle over every (peptide, header entry) pair of generated runs',
+    CV + 'Every header entry is parsed with an own grammar, resolved against the input records of its backbone and re-derived: exactly the named records '
+    'must produce the peptide; entry strings must be unique. Deviations are clustered by minimal repair and only the recorded mechanisms are tolerated.',
+    TB + 'Labels are not reproducible run to run (address-hashed sets), so known label findings are keyed by predicate, not by instance.', 'DESIGN.md section 6 C03')
+reg('C04', 'exploration', 'runtime monitor: invariant checks on outputs (canonical pool from own digest, limits, uniqueness, table/FASTA agreement)',
+    CV + 'Hygiene invariants are evaluated on every output of callVariant (and of callNovelORF / callAltTranslation once their monitors are built).',
+    TB, 'DESIGN.md section 6 C04')
+
 NOT_YET = 'check not built yet in this session (runtime-monitoring design exists in DESIGN.md section 6); will be claimed when its monitor is committed'
 
 
